@@ -16,7 +16,7 @@ from __future__ import annotations
 import ast
 import re
 
-from ..flow import reach_rejections, Defs, Scope, cond, guards, iterations, nnf, rejections
+from ..flow import reach_rejections, Defs, Scope, cond, guards, iterations, nnf, rejections, guard_facts
 from ..loader import AnalysisError, FuncInfo, dotted, norm, walk_no_nested
 from ..report import Ctx
 from ..selftest import Mutant
@@ -220,6 +220,32 @@ def rule_all_outputs(ctx: Ctx) -> None:
             (f"UNDECIDED: MapSpec.rename refuses `{' and '.join(direct[0]['conds'])[:80]}`, which this rule cannot classify" if not collide else "") +
             f"MapSpec.rename refuses `{' and '.join(direct[0]['conds'])[:90]}`: renames are simultaneous, a new name may equal a name that is renamed away in the same call (a swap `{{a: b, b: a}}` or a chain) - "
             "a well-formed spec and a renaming with a well-formed result is rejected", key="rename-total")
+    # __post_init__ validates EVERY spec: an early `return` ahead of rejections exempts a class of specs (input-less ones) from the
+    # checks behind it - also from those that only concern the outputs
+    for cls_, post_ in ((ms, post), (asp, apost)):
+        cfg_p = ctx.cfg(post_)
+        rej_nodes = [cfg_p.node(r_["node"]) for r_ in rejections(cfg_p, post_.node, Defs(post_)) if not r_["dead"] and cfg_p.node(r_["node"]) is not None]
+        early = [n_ for n_ in cfg_p.nodes(lambda s_: isinstance(s_, ast.Return)) if any(r_ > n_ and cfg_p.stmt[r_].lineno > cfg_p.stmt[n_].lineno for r_ in rej_nodes)]
+        ctx.add("3-all-outputs", post_, cfg_p.stmt[early[0]] if early else post_.node, not early, f"{cls_.name}.__post_init__ has no early return ahead of a rejection" if not early else
+                f"`return` at line {cfg_p.stmt[early[0]].lineno} of {cls_.name}.__post_init__ skips the rejections behind it for the specs that take it "
+                f"({' and '.join(t for t, p_ in guard_facts(cfg_p, Defs(post_), early[0]))[:60]}): malformed specs of that kind (\"... -> x[i, :]\", outputs with different indices) are accepted at construction", key=f"no-early-return {cls_.name}")
+    # the fields of a spec are TUPLES (frozen, hashable, equal to what the parser builds): a constructor call that hands over lists
+    # yields a spec that prints right but is unequal to its own round trip and unhashable
+    n_ctor = 0
+    for f_ in P.functions_in(MOD):
+        d_f = Defs(f_)
+        for c in [c for c in ast.walk(f_.node) if isinstance(c, ast.Call) and dotted(c.func) in ("MapSpec", "ArraySpec")]:
+            n_ctor += 1
+            lists = [a for a in list(c.args) + [k.value for k in c.keywords if k.arg in ("inputs", "outputs", "axes")] if isinstance(d_f.resolve(a), (ast.List, ast.ListComp)) or (isinstance(d_f.resolve(a), ast.Call) and dotted(d_f.resolve(a).func) in ("list", "sorted"))]
+            if lists:
+                ctx.add("7-revalidate", f_, c, False, f"`{norm(c)[:60]}` builds a spec whose field is a LIST (`{norm(d_f.resolve(lists[0]))[:40]}`): it prints like a well-formed spec but is unhashable and not equal to `from_string(str(spec))`", key=f"tuple-fields {f_.name}")
+    ctx.add("7-revalidate", MOD, "", True, f"{n_ctor} spec constructions in the module hand over tuples", key="tuple-fields-scan")
+    # shapes are looked up BY NAME: pairing the inputs with `input_shapes.values()` position by position relies on the caller's dict order
+    vs = P.func(f"{MOD}._validate_shapes") if f"{MOD}._validate_shapes" in P.functions else None
+    if vs is not None:
+        by_pos = [c for c in ast.walk(vs.node) if isinstance(c, ast.Call) and dotted(c.func) == "zip" and any(isinstance(a, ast.Call) and isinstance(a.func, ast.Attribute) and a.func.attr == "values" for a in c.args)]
+        ctx.add("5-shape-path", vs, by_pos[0] if by_pos else vs.node, not by_pos, "each input's shape is looked up by the input's name" if not by_pos else
+                f"`{norm(by_pos[0])[:60]}` pairs the inputs with the VALUES of the shapes dict by position: a dict given in another key order has its ranks checked against the wrong inputs (valid shapes are refused, wrong ranks pass)", key="shapes-by-name")
     # input_keys has an entry for EVERY input (':'-only inputs get full slices)
     from ..flow import element_domain
 
